@@ -25,7 +25,7 @@ def sh(cmd, cwd=None, env=None, timeout=1800):
 
 
 meta = {'id': name, 'property': pid, 'source': 'independent sub-agent given only the property text',
-        'round': 2 if os.environ.get('SEED_OFFSET') else 1}
+        'round': 1 + int(os.environ.get('SEED_OFFSET', '0')) // 2 if int(os.environ.get('SEED_OFFSET', '0')) <= 2 else int(os.environ.get('SEED_ROUND', '3'))}
 if name in ('C07-2', 'C05-2'):
   meta['ported'] = 'the original patch conflicted with a later fix: commit; re-applied by hand to the current tree, same change'
 patch = f'{src}/patch{n}.diff'
